@@ -130,9 +130,10 @@ def h_capture(sx):
         steps = w.step_objs(e)
         executed = [src for (sid, src) in [tuple(c) for c in w.calls] if sid == e.eid]
         for i, st in enumerate(steps):
-            if st.status.name in ("failed", "error") and st.error_message and st.name.split()[-1] in executed:
-                src = st.name.split()[-1]
-                upto = executed[:executed.index(src) + 1]
+            if st.status.name in ("failed", "error") and st.error_message and st.name.split()[1] in executed:
+                src = st.name.split()[1]
+                last = max(i_ for i_, x in enumerate(executed) if x == src or x.startswith(src + "."))
+                upto = executed[:last + 1]      # incl. nested sub-steps / output after them within the same step
                 marks = MARK.findall(st.error_message)
                 for kind, on in (("OUT", so), ("ERR", se), ("LOG", lo)):
                     got = [(a, b) for k, a, b in marks if k == kind]
@@ -190,6 +191,7 @@ def jobs(tier, seed):
     if tier == "thorough":
         shapes.update({"3sc": ([F([S(2), S(2), S(1)])], {"out_dom": D, "stop": "sym"}),
                        "rule": ([F([S(1), R([S(1)], bg=1)], bg=1)], {"out_dom": D})})
+    shapes["nested"] = ([F([S(2), S(1)])], {"out_dom": {"*": [0, 1]}, "nested_steps": ["f0.i0.0", "f0.i1.0"], "undef": False})
     for name, (sh, opts) in shapes.items():
         for clear in ((False,) if tier == "quick" else (False, True)):
             js.append(Job("capture.%s.c%d" % (name, clear), "props.c18:h_capture",
